@@ -11,7 +11,7 @@ META = {
         "put_value/apply_map; R4 apply_map's operation table; R5 initialisers finish with InitComplete after the stored "
         "entries; R6 the agent acks StoreInitialized only after initialize succeeded; R7 store ids are None only on the "
         "transient edge."),
-    "does_not_decide": "that either store returns on restart what it was handed (C13), crash atomicity inside RocksDB, the agent-side fold of the init stream",
+    "does_not_decide": "that either store returns on restart what it was handed for all histories (C13; R10 checks the operation table and the clear range only), crash atomicity inside RocksDB, the agent-side fold of the init stream",
     "assumptions": ["NodePersistence::put_value/update_map/... are synchronous: when they return Ok the store has the data"],
 }
 
@@ -348,4 +348,12 @@ def run(ctx):
                 cb = [x for x in rt.closures_of(al.defpath) if x.defpath == dp][0]
                 a = [describe_operand(cb, x.args[1]) for x in cb.calls if x.via_name == m]
                 r.check(a == ["lane_id"], "add_lane/%s/by-the-looked-up-id" % m, where(cb), "%s is given the looked-up id" % m, "%s is given %s" % (m, a))
+
+    with ctx.rule("C05.R10", "T5", "the RocksDB store applies each operation it is handed to that lane's own entries (shared with C13.R3/R4)", floor=10) as r:
+        # `a map comes back as exactly the entries implied by the operations handed over`: the NodePersistence methods reach the matching engine
+        # operation with the matching key, and clear_map's range delete covers one lane id only
+        from rules.C13 import delete_map_range, store_wrapper_table
+        rs = ctx.crate("swimos_rocks_store")
+        store_wrapper_table(r, ctx, rs)
+        delete_map_range(r, ctx, rs)
 
